@@ -44,3 +44,504 @@ Proof.
   rewrite forall_lazy_eq in H2.
   exists (env_of pe). split; [split; assumption|]. apply zlist_eqb_eq; assumption.
 Qed.
+
+(* ------------------------------------------------------------------------ *)
+(* completeness *)
+
+Section ExprInd.
+  Variable P : expr -> Prop.
+  Hypothesis Hb : forall b, P (PyBool b).
+  Hypothesis Hi : forall z, P (PyInt z).
+  Hypothesis Hn : P PyNone.
+  Hypothesis Hbv : forall i, P (BVar i).
+  Hypothesis Hiv : forall i lo hi, P (IVar i lo hi).
+  Hypothesis Hbn : forall o args, Forall P args -> P (BNode o args).
+  Hypothesis Hin : forall o args, Forall P args -> P (INode o args).
+  Fixpoint expr_ind_nested (e : expr) : P e :=
+    match e with
+    | PyBool b => Hb b
+    | PyInt z => Hi z
+    | PyNone => Hn
+    | BVar i => Hbv i
+    | IVar i lo hi => Hiv i lo hi
+    | BNode o args =>
+        Hbn o args ((fix go (l : list expr) : Forall P l :=
+                       match l with
+                       | [] => Forall_nil P
+                       | a :: r => Forall_cons a (expr_ind_nested a) (go r)
+                       end) args)
+    | INode o args =>
+        Hin o args ((fix go (l : list expr) : Forall P l :=
+                       match l with
+                       | [] => Forall_nil P
+                       | a :: r => Forall_cons a (expr_ind_nested a) (go r)
+                       end) args)
+    end.
+End ExprInd.
+
+(* ---- lists of optional values *)
+Definition below (p w : option value) : Prop := forall v, p = Some v -> w = Some v \/ w = None.
+
+Lemma all_some_in {A} (ws : list (option A)) l x :
+  all_some ws = Some l -> In (Some x) ws -> In x l.
+Proof.
+  revert l; induction ws as [|a r IH]; simpl; intros l H Hin; [contradiction|].
+  destruct a as [a|]; [|discriminate].
+  destruct (all_some r) as [r'|] eqn:E; [|discriminate]. inversion H; subst.
+  destruct Hin as [Hin|Hin]; [inversion Hin; left; reflexivity| right; eauto].
+Qed.
+
+Lemma all_some_none_in {A} (ws : list (option A)) : In None ws -> all_some ws = None.
+Proof.
+  induction ws as [|a r IH]; simpl; intros H; [contradiction|].
+  destruct a; [|reflexivity]. destruct H as [H|H]; [discriminate|]. rewrite IH; auto.
+Qed.
+
+Lemma below_all_some vs ws l :
+  Forall2 below vs ws -> all_some vs = Some l -> ws = vs \/ all_some ws = None.
+Proof.
+  intros HF; revert l; induction HF as [|p w vs ws Hpw HF IH]; simpl; intros l H; [left; reflexivity|].
+  destruct p as [p|]; [|discriminate].
+  destruct (all_some vs) as [l'|] eqn:E; [|discriminate].
+  destruct (Hpw p eq_refl) as [Hw|Hw]; subst w.
+  - destruct (IH l' eq_refl) as [H1|H1].
+    + left; subst; reflexivity.
+    + right. simpl. rewrite H1. reflexivity.
+  - right; reflexivity.
+Qed.
+
+Lemma as_bools_in l bs b : as_bools l = Some bs -> In (VB b) l -> In b bs.
+Proof.
+  revert bs; induction l as [|a r IH]; simpl; intros bs H Hin; [contradiction|].
+  destruct a as [x|x]; [|discriminate].
+  destruct (as_bools r) as [r'|] eqn:E; [|discriminate]. inversion H; subst.
+  destruct Hin as [Hin|Hin]; [inversion Hin; left; reflexivity| right; eauto].
+Qed.
+
+Lemma forallb_id_false bs : In false bs -> forallb (fun b : bool => b) bs = false.
+Proof.
+  induction bs as [|a r IH]; simpl; intros H; [contradiction|].
+  destruct H as [H|H]; [subst; reflexivity|]. rewrite IH by assumption. apply andb_false_r.
+Qed.
+Lemma existsb_id_true bs : In true bs -> existsb (fun b : bool => b) bs = true.
+Proof.
+  induction bs as [|a r IH]; simpl; intros H; [contradiction|].
+  destruct H as [H|H]; [subst; reflexivity|]. rewrite IH by assumption. apply orb_true_r.
+Qed.
+
+(* the operators evaluated strictly: knowing less can only lose the result *)
+Lemma strict_bop o vs ws v :
+  Forall2 below vs ws -> eval_bop no_graph o vs = Some v ->
+  eval_bop no_graph o ws = Some v \/ eval_bop no_graph o ws = None.
+Proof.
+  intros HF H.
+  destruct (all_some vs) as [l|] eqn:E.
+  - destruct (below_all_some _ _ _ HF E) as [H1|H1].
+    + subst. left; assumption.
+    + right. unfold eval_bop. rewrite H1. destruct o; reflexivity.
+  - exfalso. unfold eval_bop in H. rewrite E in H. destruct o; discriminate.
+Qed.
+
+Lemma strict_iop o vs ws v :
+  Forall2 below vs ws -> eval_iop o vs = Some v ->
+  eval_iop o ws = Some v \/ eval_iop o ws = None.
+Proof.
+  intros HF H.
+  destruct (all_some vs) as [l|] eqn:E.
+  - destruct (below_all_some _ _ _ HF E) as [H1|H1].
+    + subst. left; assumption.
+    + right. unfold eval_iop. rewrite H1. reflexivity.
+  - exfalso. unfold eval_iop in H. rewrite E in H. discriminate.
+Qed.
+
+Lemma Forall2_below_in vs ws p :
+  Forall2 below vs ws -> In p vs -> exists w, In w ws /\ below p w.
+Proof.
+  intros HF; induction HF as [|a b vs ws Hab HF IH]; simpl; intros Hin; [contradiction|].
+  destruct Hin as [Hin|Hin]; [subst; eauto|]. destruct (IH Hin) as [w [H1 H2]]; eauto.
+Qed.
+
+Lemma and_short vs ws :
+  Forall2 below vs ws -> existsb is_vfalse vs = true ->
+  eval_bop no_graph AND ws = Some (VB false) \/ eval_bop no_graph AND ws = None.
+Proof.
+  intros HF H. apply existsb_exists in H. destruct H as [p [Hin Hp]].
+  destruct p as [[[|]|]|]; try discriminate.
+  destruct (Forall2_below_in _ _ _ HF Hin) as [w [Hw Hb]].
+  unfold eval_bop. destruct (all_some ws) as [l|] eqn:E; [|right; reflexivity].
+  destruct (Hb _ eq_refl) as [H1|H1]; subst w.
+  - pose proof (all_some_in _ _ _ E Hw) as Hl.
+    destruct (as_bools l) as [bs|] eqn:Eb; [|right; reflexivity].
+    left. simpl. rewrite (forallb_id_false bs (as_bools_in _ _ _ Eb Hl)). reflexivity.
+  - rewrite (all_some_none_in _ Hw) in E. discriminate.
+Qed.
+
+Lemma or_short vs ws :
+  Forall2 below vs ws -> existsb is_vtrue vs = true ->
+  eval_bop no_graph OR ws = Some (VB true) \/ eval_bop no_graph OR ws = None.
+Proof.
+  intros HF H. apply existsb_exists in H. destruct H as [p [Hin Hp]].
+  destruct p as [[[|]|]|]; try discriminate.
+  destruct (Forall2_below_in _ _ _ HF Hin) as [w [Hw Hb]].
+  unfold eval_bop. destruct (all_some ws) as [l|] eqn:E; [|right; reflexivity].
+  destruct (Hb _ eq_refl) as [H1|H1]; subst w.
+  - pose proof (all_some_in _ _ _ E Hw) as Hl.
+    destruct (as_bools l) as [bs|] eqn:Eb; [|right; reflexivity].
+    left. simpl. rewrite (existsb_id_true bs (as_bools_in _ _ _ Eb Hl)). reflexivity.
+  - rewrite (all_some_none_in _ Hw) in E. discriminate.
+Qed.
+
+Lemma imp_short a b a' b' :
+  below a a' -> below b b' -> is_vfalse a || is_vtrue b = true ->
+  eval_bop no_graph IMP [a'; b'] = Some (VB true) \/ eval_bop no_graph IMP [a'; b'] = None.
+Proof.
+  intros Ha Hb H. apply orb_true_iff in H. destruct H as [H|H].
+  - destruct a as [[[|]|]|]; try discriminate.
+    destruct (Ha _ eq_refl) as [H1|H1]; subst a'.
+    + destruct b' as [[x|x]|]; simpl; auto.
+    + right; reflexivity.
+  - destruct b as [[[|]|]|]; try discriminate.
+    destruct (Hb _ eq_refl) as [H1|H1]; subst b'.
+    + destruct a' as [[[|]|x]|]; simpl; auto.
+    + right. destruct a' as [[x|x]|]; reflexivity.
+Qed.
+
+(* ---- partial assignments that agree with a fixed total assignment *)
+Section Against.
+  Variable st : state.
+  Variable en : env.
+
+  Definition compat (pe : penv) : Prop :=
+    forall i z, plook pe i = Some z -> z = read_var st en i.
+
+  Lemma plook_set_nth pe i z j :
+    plook (pset pe i z) j = if Nat.eqb j i && Nat.ltb i (length pe) then Some z else plook pe j.
+  Proof.
+    unfold plook, pset. revert i j; induction pe as [|a r IH]; intros i j; simpl.
+    - rewrite andb_false_r. reflexivity.
+    - destruct i as [|i]; destruct j as [|j]; simpl; auto.
+      rewrite IH. reflexivity.
+  Qed.
+
+  Lemma pset_length pe i z : length (pset pe i z) = length pe.
+  Proof.
+    unfold pset. revert i; induction pe as [|a r IH]; intros i; simpl; [reflexivity|].
+    destruct i; simpl; auto.
+  Qed.
+
+  Lemma compat_set pe i : compat pe -> compat (pset pe i (read_var st en i)).
+  Proof.
+    intros H j z Hj. rewrite plook_set_nth in Hj.
+    destruct (Nat.eqb j i && Nat.ltb i (length pe)) eqn:E.
+    - apply andb_true_iff in E. destruct E as [E _]. apply Nat.eqb_eq in E. subst.
+      inversion Hj; reflexivity.
+    - auto.
+  Qed.
+
+  Lemma compat_empty n : compat (repeat None n).
+  Proof.
+    intros i z H. unfold plook in H.
+    assert (Hn : nth i (repeat (@None Z) n) None = None).
+    { clear. revert i; induction n; intros [|i]; simpl; auto. }
+    rewrite Hn in H. discriminate.
+  Qed.
+
+  Lemma b2z_eqb1 b : (b2z b =? 1) = b.
+  Proof. destruct b; reflexivity. Qed.
+
+  (* three-valued evaluation never contradicts the total assignment *)
+  Lemma peval_below pe : compat pe ->
+    forall e, refs_ok (vars st) e = true -> below (peval pe e) (eval no_graph en e).
+  Proof.
+    intros Hc e. induction e as [b|z| |i|i lo hi|o args IH|o args IH] using expr_ind_nested;
+      intros Hr v Hv.
+    - left; assumption.
+    - left; assumption.
+    - discriminate.
+    - simpl in *. destruct (plook pe i) as [z|] eqn:E; [|discriminate]. simpl in Hv. inversion Hv; subst.
+      left. rewrite (Hc _ _ E). unfold read_var.
+      destruct (nth_error (vars st) i) as [[|]|]; try discriminate.
+      rewrite b2z_eqb1. reflexivity.
+    - simpl in *. destruct (plook pe i) as [z|] eqn:E; [|discriminate]. simpl in Hv. inversion Hv; subst.
+      left. rewrite (Hc _ _ E). unfold read_var.
+      destruct (nth_error (vars st) i) as [[|]|]; try discriminate. reflexivity.
+    - cbn [refs_ok] in Hr.
+      assert (HF : Forall2 below (map (peval pe) args) (map (eval no_graph en) args)).
+      { clear Hv. induction args as [|a r IHr]; simpl; [constructor|].
+        simpl in Hr. apply andb_true_iff in Hr. destruct Hr as [Hr1 Hr2].
+        inversion IH; subst. constructor; [apply H1; assumption|apply IHr; assumption]. }
+      cbn [peval] in Hv. cbn [eval].
+      destruct o; cbv beta iota zeta in Hv; try (apply (strict_bop _ _ _ _ HF Hv)).
+      + (* AND *)
+        destruct (existsb is_vfalse (map (peval pe) args)) eqn:E.
+        * inversion Hv; subst. apply and_short with (vs := map (peval pe) args); assumption.
+        * apply (strict_bop _ _ _ _ HF Hv).
+      + (* OR *)
+        destruct (existsb is_vtrue (map (peval pe) args)) eqn:E.
+        * inversion Hv; subst. apply or_short with (vs := map (peval pe) args); assumption.
+        * apply (strict_bop _ _ _ _ HF Hv).
+      + (* IMP *)
+        destruct args as [|a [|b [|c r]]]; cbn [map] in *; try discriminate.
+        inversion HF as [|? ? ? ? Ha HF']; subst. inversion HF' as [|? ? ? ? Hb HF'']; subst.
+        destruct (is_vfalse (peval pe a) || is_vtrue (peval pe b)) eqn:E.
+        * inversion Hv; subst. apply imp_short with (a := peval pe a) (b := peval pe b); assumption.
+        * apply (strict_bop IMP [peval pe a; peval pe b] _ _ HF Hv).
+    - cbn [refs_ok] in Hr.
+      assert (HF : Forall2 below (map (peval pe) args) (map (eval no_graph en) args)).
+      { clear Hv. induction args as [|a r IHr]; simpl; [constructor|].
+        simpl in Hr. apply andb_true_iff in Hr. destruct Hr as [Hr1 Hr2].
+        inversion IH; subst. constructor; [apply H1; assumption|apply IHr; assumption]. }
+      cbn [peval] in Hv. cbn [eval].
+      apply (strict_iop _ _ _ _ HF Hv).
+  Qed.
+
+  Lemma prune_ok_complete pe cs :
+    compat pe -> incl cs (cons st) ->
+    forallb (refs_ok (vars st)) (cons st) = true ->
+    satisfies no_graph en st = true -> prune_ok cs pe = true.
+  Proof.
+    intros Hc Hi Hr Hs. unfold prune_ok. rewrite forall_lazy_eq. apply forallb_forall.
+    intros c Hin. apply Hi in Hin.
+    unfold satisfies in Hs. rewrite forallb_forall in Hs, Hr.
+    specialize (Hs _ Hin). specialize (Hr _ Hin).
+    destruct (peval pe c) as [[[|]|]|] eqn:E; try reflexivity.
+    exfalso. destruct (peval_below pe Hc c Hr _ E) as [H|H];
+      unfold holds in Hs; rewrite H in Hs; discriminate.
+  Qed.
+
+  (* the path through the plan that copies the total assignment *)
+  Fixpoint follow (plan : list step) (pe : penv) : penv :=
+    match plan with
+    | [] => pe
+    | (v, _, _) :: r => follow r (pset pe v (read_var st en v))
+    end.
+
+  Definition step_wf (s : step) : Prop :=
+    let '(v, dom, cs) := s in In (read_var st en v) dom /\ incl cs (cons st).
+
+  Lemma search_complete leaf plan pe :
+    compat pe -> Forall step_wf plan ->
+    forallb (refs_ok (vars st)) (cons st) = true -> satisfies no_graph en st = true ->
+    leaf (follow plan pe) = true -> search leaf plan pe = true.
+  Proof.
+    intros Hc Hw Hr Hs. revert pe Hc. induction Hw as [|[[v dom] cs] r [Hd Hi] Hw IH]; simpl; intros pe Hc Hl.
+    - assumption.
+    - rewrite exists_lazy_eq. apply existsb_exists. exists (read_var st en v). split; [assumption|].
+      rewrite andl_eq. apply andb_true_iff. split.
+      + apply prune_ok_complete; auto. apply compat_set; assumption.
+      + apply IH; [apply compat_set; assumption|assumption].
+  Qed.
+
+  Lemma compat_follow plan pe : compat pe -> compat (follow plan pe).
+  Proof.
+    revert pe; induction plan as [|[[v d] c] r IH]; simpl; intros pe H; [assumption|].
+    apply IH. apply compat_set. assumption.
+  Qed.
+
+  Lemma follow_length plan pe : length (follow plan pe) = length pe.
+  Proof.
+    revert pe; induction plan as [|[[v d] c] r IH]; simpl; intros pe; [reflexivity|].
+    rewrite IH. apply pset_length.
+  Qed.
+
+  Definition assigned (pe : penv) (i : nat) : Prop := plook pe i <> None.
+
+  Lemma assigned_set_same pe i z : (i < length pe)%nat -> assigned (pset pe i z) i.
+  Proof.
+    intros H. unfold assigned. rewrite plook_set_nth. rewrite Nat.eqb_refl.
+    apply Nat.ltb_lt in H. rewrite H. simpl. discriminate.
+  Qed.
+  Lemma assigned_set_other pe i z j : assigned pe j -> assigned (pset pe i z) j.
+  Proof.
+    unfold assigned. rewrite plook_set_nth. destruct (Nat.eqb j i && Nat.ltb i (length pe)); [discriminate|auto].
+  Qed.
+
+  Lemma assigned_follow_keep plan pe j : assigned pe j -> assigned (follow plan pe) j.
+  Proof.
+    revert pe; induction plan as [|[[v d] c] r IH]; simpl; intros pe H; [assumption|].
+    apply IH. apply assigned_set_other. assumption.
+  Qed.
+
+  Lemma assigned_follow plan pe v :
+    In v (map (fun s : step => fst (fst s)) plan) -> (v < length pe)%nat -> assigned (follow plan pe) v.
+  Proof.
+    revert pe; induction plan as [|[[u d] c] r IH]; simpl; intros pe Hin Hlt; [contradiction|].
+    destruct Hin as [Hin|Hin].
+    - subst. apply assigned_follow_keep. apply assigned_set_same. assumption.
+    - apply IH; [assumption|]. rewrite pset_length. assumption.
+  Qed.
+End Against.
+
+Lemma zrange_from_in lo n z : In z (zrange_from lo n) <-> lo <= z < lo + Z.of_nat n.
+Proof.
+  revert lo; induction n as [|n IH]; intros lo; simpl zrange_from.
+  - simpl. lia.
+  - simpl In. rewrite IH. lia.
+Qed.
+Lemma zrange_in lo hi z : In z (zrange lo hi) <-> lo <= z <= hi.
+Proof.
+  unfold zrange. rewrite zrange_from_in.
+  destruct (Z_le_gt_dec lo hi).
+  - rewrite Z2Nat.id by lia. lia.
+  - replace (Z.to_nat (hi - lo + 1)) with 0%nat by lia. simpl. lia.
+Qed.
+
+Lemma in_bounds_from_nth en vs k :
+  in_bounds_from en k vs = true ->
+  forall i lo hi, nth_error vs i = Some (DInt lo hi) -> lo <= ei en (k + i) <= hi.
+Proof.
+  revert k; induction vs as [|d r IH]; intros k H i lo hi Hn.
+  - destruct i; discriminate.
+  - destruct i as [|i]; simpl in Hn.
+    + inversion Hn; subst. simpl in H.
+      apply andb_true_iff in H. destruct H as [H _]. apply andb_true_iff in H. destruct H as [H1 H2].
+      rewrite Nat.add_0_r. lia.
+    + replace (k + S i)%nat with (S k + i)%nat by lia. apply (IH (S k)); [|assumption].
+      destruct d; simpl in H; [assumption|].
+      apply andb_true_iff in H. destruct H as [_ H]. assumption.
+Qed.
+
+Lemma in_bounds_from_ext e1 e2 vs k :
+  (forall i lo hi, nth_error vs i = Some (DInt lo hi) -> ei e1 (k + i) = ei e2 (k + i)) ->
+  in_bounds_from e1 k vs = in_bounds_from e2 k vs.
+Proof.
+  revert k; induction vs as [|d r IH]; intros k H; simpl; [reflexivity|].
+  assert (Hr : in_bounds_from e1 (S k) r = in_bounds_from e2 (S k) r).
+  { apply IH. intros i lo hi Hn. replace (S k + i)%nat with (k + S i)%nat by lia. apply (H (S i) lo hi). exact Hn. }
+  destruct d as [|lo hi]; [assumption|].
+  rewrite Hr. specialize (H 0%nat lo hi eq_refl). rewrite Nat.add_0_r in H. rewrite H. reflexivity.
+Qed.
+
+(* two assignments that agree, type by type, on every declared variable *)
+Definition agree_typed (vs : list vdecl) (e1 e2 : env) : Prop :=
+  forall i, match nth_error vs i with
+            | Some DBool => eb e1 i = eb e2 i
+            | Some (DInt _ _) => ei e1 i = ei e2 i
+            | None => True
+            end.
+
+Lemma eval_agree_typed vs e1 e2 : agree_typed vs e1 e2 ->
+  forall e, refs_ok vs e = true -> eval no_graph e1 e = eval no_graph e2 e.
+Proof.
+  intros Ha e. induction e as [b|z| |i|i lo hi|o args IH|o args IH] using expr_ind_nested;
+    intros Hr; simpl in *; try reflexivity.
+  - specialize (Ha i). destruct (nth_error vs i) as [[|]|]; try discriminate. rewrite Ha. reflexivity.
+  - specialize (Ha i). destruct (nth_error vs i) as [[|]|]; try discriminate. rewrite Ha. reflexivity.
+  - f_equal. apply map_ext_in. intros a Hin.
+    rewrite Forall_forall in IH. apply IH; [assumption|].
+    rewrite forallb_forall in Hr. auto.
+  - f_equal. apply map_ext_in. intros a Hin.
+    rewrite Forall_forall in IH. apply IH; [assumption|].
+    rewrite forallb_forall in Hr. auto.
+Qed.
+
+Lemma init_penv_spec st en kids n :
+  forall pe, compat st en pe -> length pe = n ->
+  let pe' := fold_left (fun pe '(i, z) => pset pe i z) (combine kids (reads st en kids)) pe in
+  compat st en pe' /\ length pe' = n /\
+  (forall i, assigned pe i -> assigned pe' i) /\
+  (forall i, In i kids -> (i < n)%nat -> assigned pe' i).
+Proof.
+  induction kids as [|k r IH]; intros pe Hc Hl; simpl.
+  - repeat split; auto. intros i [].
+  - specialize (IH (pset pe k (read_var st en k)) (compat_set st en pe k Hc)).
+    rewrite pset_length in IH. specialize (IH Hl). simpl in IH.
+    destruct IH as [H1 [H2 [H3 H4]]]. repeat split; auto.
+    + intros i Hi. apply H3. apply assigned_set_other. assumption.
+    + intros i [Hi|Hi] Hlt.
+      * subst. apply H3. apply assigned_set_same. rewrite Hl. assumption.
+      * apply H4; assumption.
+Qed.
+
+Lemma mem_In x l : mem x l = true <-> In x l.
+Proof.
+  unfold mem. rewrite existsb_exists. split.
+  - intros [y [H1 H2]]. apply Nat.eqb_eq in H2. subst. assumption.
+  - intros H. exists x. split; [assumption|apply Nat.eqb_refl].
+Qed.
+
+Theorem sat_abs_complete st kids order ans :
+  wf_prog st kids = true ->
+  (exists en, model_of no_graph en st /\ reads st en kids = ans) ->
+  sat_abs st kids order ans = true.
+Proof.
+  intros Hwf [en [[Hb Hs] Hrd]].
+  unfold wf_prog in Hwf. apply andb_true_iff in Hwf. destruct Hwf as [Hrefs Hkids].
+  unfold sat_abs, sat_abs_plan. set (n := length (vars st)).
+  set (plan := plan_of st (full_order st kids order)).
+  subst ans.
+  assert (Hlen : length kids = length (reads st en kids)) by (unfold reads; rewrite map_length; reflexivity).
+  rewrite <- Hlen, Nat.eqb_refl.
+  destruct (init_penv_spec st en kids n (repeat None n) (compat_empty st en n) (repeat_length _ _))
+    as [Hc0 [Hl0 [_ Hk0]]].
+  fold (init_penv n kids (reads st en kids)) in Hc0, Hl0, Hk0.
+  set (pe0 := init_penv n kids (reads st en kids)) in *.
+  rewrite (prune_ok_complete st en pe0 (cons st) Hc0 (incl_refl _) Hrefs Hs).
+  (* the plan is well-formed w.r.t. en *)
+  assert (Hpw : Forall (step_wf st en) plan).
+  { unfold plan, plan_of. apply Forall_forall. intros s Hin. apply in_flat_map in Hin.
+    destruct Hin as [v [_ Hin]].
+    destruct (nth_error (vars st) v) as [d|] eqn:E; [|contradiction].
+    destruct Hin as [Hin|[]]. subst s. simpl. split.
+    - unfold read_var. rewrite E. destruct d as [|lo hi].
+      + destruct (eb en v); simpl; auto.
+      + simpl. apply zrange_in. unfold in_bounds in Hb.
+        apply (in_bounds_from_nth en (vars st) 0 Hb v lo hi E).
+    - intros c Hc. apply filter_In in Hc. tauto. }
+  apply (search_complete st en); auto.
+  (* the leaf reached by following en *)
+  set (pf := follow st en plan pe0).
+  assert (Hcf : compat st en pf) by (apply compat_follow; assumption).
+  assert (Htot : forall i, (i < n)%nat -> assigned pf i).
+  { intros i Hi. destruct (mem i kids) eqn:Ek.
+    - apply assigned_follow_keep. apply Hk0; [apply mem_In; assumption|assumption].
+    - apply assigned_follow; [|rewrite Hl0; assumption].
+      assert (Hio : In i (full_order st kids order)).
+      { unfold full_order. apply in_or_app. destruct (mem i order) eqn:Eo.
+        - left. apply mem_In. assumption.
+        - right. apply filter_In. split; [apply in_seq; fold n; lia|]. rewrite Ek, Eo. reflexivity. }
+      destruct (nth_error (vars st) i) as [d|] eqn:E.
+      + apply in_map_iff. exists (i, dom_of d, filter (mentions i) (cons st)). split; [reflexivity|].
+        unfold plan, plan_of. apply in_flat_map. exists i. split; [assumption|]. rewrite E. left; reflexivity.
+      + apply nth_error_None in E. fold n in E. lia. }
+  assert (Hag : agree_typed (vars st) (env_of pf) en).
+  { intros i. destruct (nth_error (vars st) i) as [d|] eqn:E; [|exact I].
+    assert (Hi : (i < n)%nat) by (apply nth_error_Some; rewrite E; discriminate).
+    specialize (Htot i Hi). unfold assigned in Htot.
+    destruct (plook pf i) as [z|] eqn:Ez; [|contradiction].
+    pose proof (Hcf i z Ez) as Hz. unfold read_var in Hz. rewrite E in Hz.
+    destruct d; simpl; rewrite Ez; subst z; [apply b2z_eqb1|reflexivity]. }
+  unfold leaf_ok. rewrite !andl_eq. fold pf.
+  apply andb_true_iff; split; [apply andb_true_iff; split|].
+  - unfold in_bounds. rewrite (in_bounds_from_ext (env_of pf) en (vars st) 0); [exact Hb|].
+    intros i lo hi Hn. specialize (Hag i). rewrite Hn in Hag. exact Hag.
+  - rewrite forall_lazy_eq. apply forallb_forall. intros c Hc.
+    unfold satisfies in Hs. rewrite forallb_forall in Hs, Hrefs.
+    unfold holds. rewrite (eval_agree_typed (vars st) (env_of pf) en Hag c (Hrefs c Hc)).
+    apply (Hs c Hc).
+  - replace (reads st (env_of pf) kids) with (reads st en kids); [apply zlist_eqb_refl|].
+    unfold reads. apply map_ext_in. intros i _. unfold read_var.
+    specialize (Hag i). destruct (nth_error (vars st) i) as [[|]|]; auto. rewrite Hag. reflexivity.
+Qed.
+
+(* sat_abs decides: "some model of the captured program reads as ans on the answer variables" *)
+Theorem sat_abs_correct st kids order ans :
+  wf_prog st kids = true ->
+  (sat_abs st kids order ans = true <->
+   exists en, model_of no_graph en st /\ reads st en kids = ans).
+Proof.
+  intros Hwf. split; [apply sat_abs_sound|apply sat_abs_complete; assumption].
+Qed.
+
+(* what a discharged Tier-2 goal means *)
+Theorem tier2_ok_meaning st kids order rules answers :
+  tier2_ok st kids order rules answers = true ->
+  forall ans, In ans answers ->
+    ((exists en, model_of no_graph en st /\ reads st en kids = ans) <-> rules ans = true).
+Proof.
+  unfold tier2_ok. intros H ans Hin.
+  apply andb_true_iff in H. destruct H as [Hwf H].
+  rewrite forallb_forall in H. specialize (H ans Hin). apply eqb_prop in H.
+  change (sat_abs_plan st kids (plan_of st (full_order st kids order)) ans) with (sat_abs st kids order ans) in H.
+  rewrite <- H. symmetry. apply sat_abs_correct. assumption.
+Qed.
